@@ -210,7 +210,7 @@ def build(q, env, lib, knobs=None):
     if op == "resetindex":
         return x.reset_index(drop=bool(q["drop"]))
     if op == "head":
-        return x.head(q["n"], npartitions=-1, compute=False) if dask else x.head(q["n"])
+        return x.head(q["n"], npartitions=q.get("k", -1), compute=False) if dask else x.head(q["n"])
     if op == "tail":
         return x.tail(q["n"], compute=False) if dask else x.tail(q["n"])
     if op == "cum":
